@@ -405,7 +405,7 @@ def run_shard(ctx, spec):
 
 
 def plan(tier, seed):
-    n = 2000 if tier == "quick" else 20000
+    n = 2000 if tier == "quick" else 50000
     return [("random", n // 16, i) for i in range(16)]
 
 
